@@ -1303,42 +1303,40 @@ class AstEval:
 
     async def ast_with(self, arg, async_attr=""):
         """Execute with statement."""
-        hit_except = False
-        ctx_list = []
-        val = None
-        enter_attr = f"__{async_attr}enter__"
-        exit_attr = f"__{async_attr}exit__"
-        try:
-            for item in arg.items:
-                manager = await self.aeval(item.context_expr)
-                ctx_list.append(
-                    {
-                        "manager": manager,
-                        "enter": getattr(type(manager), enter_attr),
-                        "exit": getattr(type(manager), exit_attr),
-                        "target": item.optional_vars,
-                    }
-                )
-            for ctx in ctx_list:
-                value = await self.call_func(ctx["enter"], enter_attr, ctx["manager"])
-                if ctx["target"]:
-                    await self.recurse_assign(ctx["target"], value)
+        return await self.with_item(arg, 0, f"__{async_attr}enter__", f"__{async_attr}exit__")
+
+    async def with_item(self, arg, item_idx, enter_attr, exit_attr):
+        """Enter the with-statement items from item_idx onwards, run the body and exit them in reverse."""
+        if item_idx >= len(arg.items):
+            val = None
             for arg1 in arg.body:
                 val = await self.aeval(arg1)
                 if isinstance(val, EvalStopFlow):
                     break
+            return val
+        #
+        # each item is evaluated, entered and bound before the next one is looked at; a manager
+        # is exited exactly if its enter succeeded, and decides on its own whether the
+        # exception (seen by the managers outside it only if not suppressed) is suppressed
+        #
+        item = arg.items[item_idx]
+        manager = await self.aeval(item.context_expr)
+        enter = getattr(type(manager), enter_attr)
+        exit_func = getattr(type(manager), exit_attr)
+        value = await self.call_func(enter, enter_attr, manager)
+        hit_except = False
+        val = None
+        try:
+            if item.optional_vars:
+                await self.recurse_assign(item.optional_vars, value)
+            val = await self.with_item(arg, item_idx + 1, enter_attr, exit_attr)
         except Exception:
             hit_except = True
-            exit_ok = True
-            for ctx in reversed(ctx_list):
-                ret = await self.call_func(ctx["exit"], exit_attr, ctx["manager"], *sys.exc_info())
-                exit_ok = exit_ok and ret
-            if not exit_ok:
+            if not await self.call_func(exit_func, exit_attr, manager, *sys.exc_info()):
                 raise
         finally:
             if not hit_except:
-                for ctx in reversed(ctx_list):
-                    await self.call_func(ctx["exit"], exit_attr, ctx["manager"], None, None, None)
+                await self.call_func(exit_func, exit_attr, manager, None, None, None)
         return val
 
     async def ast_asyncwith(self, arg):
